@@ -1,5 +1,5 @@
 """C03 — every accepted statement reaches each sink once, in thread order (DESIGN §4 C03)."""
-from qlib import (AnalysisBroken, strip, isnode, walk, is_call, norm_cmp, var_ref, is_null, const_val, short, call_obj,
+from qlib import (peel_not, AnalysisBroken, strip, isnode, walk, is_call, norm_cmp, var_ref, is_null, const_val, short, call_obj,
                   expr_key, field_name, is_this_field)
 from rules.common import (core_and_neg, tnode, other, cpos, npos, branches_on_call, flatten, in_subtree, try_stack,
                           handler_info, loops_enclosing, need_some, returns_bool, branches_on_var_null)
@@ -33,6 +33,7 @@ def run(ctx):
         r5(ctx, facts, cfg)
         r6(ctx, facts, cfg)
         r7(ctx, facts, cfg)
+        transit_event_transfer(ctx, facts, cfg, "C03.R4")
         from rules import c02
         from rules.c09 import Renamed
         bn = {m.base: m for m in facts.fns if m.config == cfg and m.cls == c02.CLS and not m.rec.get("ctor") and not m.rec.get("dtor")}
@@ -352,9 +353,9 @@ def r6(ctx, facts, cfg):
                 # trip count: i < size()  (a local initialised from size())
                 c = lp.get("cond")
                 nc = norm_cmp(c)
-                cc = strip(c)
+                cc = peel_not(c)
                 bound_ok = False
-                if nc and nc[0] == "<" and isnode(cc) and var_ref(cc["lhs"]) == iv:
+                if nc and nc[0] == "<" and isnode(cc) and cc["k"] == "BinaryOperator" and cc["op"] == "<" and var_ref(cc["lhs"]) == iv:
                     bv = var_ref(cc["rhs"])
                     bi = f.var_inits().get(bv)
                     bound_ok = isnode(bi) and any(is_call(x, r"TransitEventBuffer::size$") for x in walk(bi)) or \
@@ -419,3 +420,70 @@ def r7(ctx, facts, cfg):
                "%s consumes a frontend queue / transit buffer (%s) and is reachable from role(s) %s — backend only" %
                (f.short, sorted(set(short(c["callee"]).split("::")[-1] for c in cs)), sorted(r)), fn=f)
     ctx.floor("C03.R7", "functions that consume queues/transit buffers", n, 5)
+
+
+def transit_event_transfer(ctx, facts, cfg, rule):
+    """exhaustive over the data members of TransitEvent: whatever moves or copies an event carries every member across (the
+    per-thread buffer moves its events when it grows; the backtrace ring stores copies)"""
+    crec = facts.cls("quill::detail::TransitEvent", cfg)
+    if not crec:
+        raise AnalysisBroken("TransitEvent class record not found")
+    fields = [x["name"] for x in crec["fields"]]
+    ctx.floor(rule + "t", "TransitEvent data members", len(fields), 7)
+    te = [f for f in facts.fns if f.config == cfg and f.cls == "quill::detail::TransitEvent"]
+    mctor = [f for f in te if f.rec.get("ctor") and len(f.rec.get("params") or []) == 1 and f.rec["params"][0]["ty"].endswith("&&")]
+    massign = [f for f in te if f.base == "operator=" and len(f.rec.get("params") or []) == 1 and f.rec["params"][0]["ty"].endswith("&&")]
+    cpy = [f for f in te if f.base == "copy_to"]
+    if not mctor or not massign or not cpy:
+        raise AnalysisBroken("TransitEvent move constructor / move assignment / copy_to not found")
+    # move constructor: one initialiser per member, from the same member of the source
+    f = mctor[0]
+    src = f.rec["params"][0]["did"]
+    got = {}
+    for i in f.rec.get("inits") or []:
+        e = i.get("expr")
+        got[i.get("member")] = isnode(e) and any(x["k"] == "MemberExpr" and x.get("mname") == i.get("member") and var_ref(x.get("base")) == src for x in walk(e))
+    missing = [m for m in fields if not got.get(m)]
+    ctx.ob(rule + "t", "TransitEvent::TransitEvent(TransitEvent&&):every-member", not missing,
+           "the move constructor initialises every data member from the same member of its source (missing: %s)" % missing, fn=f)
+    # move assignment
+    f = massign[0]
+    src = f.rec["params"][0]["did"]
+    got = set()
+    for n in f.walk():
+        sides = None
+        if n["k"] == "BinaryOperator" and n["op"] == "=":
+            sides = (n["lhs"], n["rhs"])
+        elif n["k"] == "CXXOperatorCallExpr" and short(n.get("callee") or "").endswith("operator=") and len(n["args"]) == 2:
+            sides = (n["args"][0], n["args"][1])
+        if sides and is_this_field(sides[0]):
+            m = strip(sides[0])["mname"]
+            if any(x["k"] == "MemberExpr" and x.get("mname") == m and var_ref(x.get("base")) == src for x in walk(sides[1])):
+                got.add(m)
+    missing = [m for m in fields if m not in got]
+    ctx.ob(rule + "t", "TransitEvent::operator=(TransitEvent&&):every-member", not missing,
+           "move assignment — what TransitEventBuffer::_expand uses to carry buffered events into the larger ring — assigns every data "
+           "member from the same member of its source (missing: %s)" % missing, fn=f)
+    # copy_to
+    f = cpy[0]
+    dst = f.rec["params"][0]["did"]
+    got = set()
+    for n in f.walk():
+        if n["k"] not in ("BinaryOperator", "CXXOperatorCallExpr", "CXXMemberCallExpr"):
+            continue
+        if n["k"] == "BinaryOperator" and n["op"] != "=":
+            continue
+        tgt = n["lhs"] if n["k"] == "BinaryOperator" else (n["args"][0] if n["k"] == "CXXOperatorCallExpr" and n.get("args") else call_obj(n))
+        rest = [n["rhs"]] if n["k"] == "BinaryOperator" else (n["args"][1:] if n["k"] == "CXXOperatorCallExpr" else n.get("args") or [])
+        tm = [x.get("mname") for x in walk(tgt) if x["k"] == "MemberExpr" and x.get("dk") == "Field" and var_ref(x.get("base")) == dst] if isnode(tgt) else []
+        for m in tm:
+            if any(is_this_field(x, m) for r_ in rest for x in walk(r_)):
+                got.add(m)
+    missing = [m for m in fields if m not in got]
+    ctx.ob(rule + "t", "TransitEvent::copy_to:every-member", not missing,
+           "copy_to — what the backtrace ring stores — writes every data member of the destination from the same member of this event "
+           "(missing: %s)" % missing, fn=f)
+    ex = facts.need("quill::detail::TransitEventBuffer::_expand", cfg)[0]
+    mv = [c for c in ex.calls(r"TransitEvent::operator=$")]
+    ctx.ob(rule + "t", "TransitEventBuffer::_expand:moves-events", bool(mv),
+           "growing the per-thread buffer carries the buffered events over with TransitEvent's move assignment", fn=ex)
